@@ -118,6 +118,7 @@ Proof.
                          [ rewrite find_setw_same in Hy by (eapply find_some_in; eauto); inversion Hy; subst y;
                            split; [intros Y _; apply Hm; [exact Y|discriminate]|intros Y _; congruence]
                          | rewrite find_setw_other in Hy by auto; apply H2; exact Hy ]) ] ]; fail).
+    all: destruct (tfe_blocked c s) eqn:Etb; [discriminate|].
     all: cbv zeta in Hs.
     all: set (s1 := set_works s (setw j WDone (works s))) in *.
     all: assert (O1 : OInv s1) by (eapply (H_setw s); [exact HO|exact Ef|reflexivity|reflexivity|reflexivity|left; reflexivity|cbn; tauto]).
